@@ -131,7 +131,10 @@ def gen_matrix(spec: dict) -> torch.Tensor:
     kind = spec.get("kind", "gauss")
     dt = torch.float64
     if kind == "offset":  # a large common component: rows = ratio * c + spread (norms >> mutual distances)
-        M = torch.randn(1, n, generator=g, dtype=dt) * float(spec.get("ratio", 1e4)) + torch.randn(m, n, generator=g, dtype=dt)
+        dev = float(spec.get("spread", 1.0)) * torch.randn(m, n, generator=g, dtype=dt)
+        if spec.get("hetero"):  # rows at clearly different distances from the common component: well separated Krum scores
+            dev = dev * (1.0 + 0.6 * torch.arange(m, dtype=dt)).unsqueeze(1)
+        M = torch.randn(1, n, generator=g, dtype=dt) * float(spec.get("ratio", 1e4)) + dev
     elif kind == "gauss":
         M = torch.randn(m, n, generator=g, dtype=dt)
     elif kind == "lowrank":
